@@ -121,6 +121,7 @@ def main():
     ap.add_argument("--seeded", action="store_true")
     ap.add_argument("--mutants", action="store_true")
     ap.add_argument("--benign", action="store_true", help="property-preserving changes under /verif/benign: every check must stay silent")
+    ap.add_argument("--props", default="", help="run only these checks (comma-separated) instead of the ones listed for each change")
     ap.add_argument("--tier", default="quick")
     ap.add_argument("--layers", default="chk,rel")
     ap.add_argument("--keep", action="store_true")
@@ -148,6 +149,9 @@ def main():
                 items.append({"name": "seeded-" + d, "props": mj.get("check_with", [mj["property"]]), "expect": mj.get("expect", "detect"), "patch": os.path.join(sd, d, "patch.diff"), "layers": mj.get("layers"), "why": mj.get("needs", "")})
     if only:
         items = [i for i in items if i["name"] in only]
+    if a.props:
+        for i in items:
+            i["props"] = [x for x in a.props.split(",") if x]
     if a.start:
         names = [i["name"] for i in items]
         if a.start in names:
